@@ -526,7 +526,21 @@ impl World {
             let max_term = self.nodes.values().filter(|x| x.started).map(|x| x.obs.term.max(x.disk.durable.hs.term)).max().unwrap_or(0);
             let stale_msgs = self.flights.values().any(|f| f.msg.term > t);
             let all_pv = self.nodes.values().all(|x| x.cfg.pre_vote && x.cfg.check_quorum);
-            if !conf || !all_follow || max_term > t || stale_msgs || !all_pv {
+            // no membership change may be under way: the majority is fixed for the whole phase
+            let pending_conf = self.nodes.values().filter(|x| x.running()).any(|x| {
+                let mut i = x.obs.applied + 1;
+                let mut found = false;
+                while i <= x.obs.last_index {
+                    if let Some((_, _, true)) = Self::log_at(x, i) {
+                        found = true;
+                        break;
+                    }
+                    i += 1;
+                }
+                found
+            }) || self.nodes[&l].obs.conf.joint()
+                || self.flights.values().any(|f| f.msg.entries.iter().any(is_conf_entry));
+            if !conf || !all_follow || max_term > t || stale_msgs || !all_pv || pending_conf {
                 return Ok(());
             }
             let old_grants: Vec<MsgKey> = self
@@ -535,7 +549,7 @@ impl World {
                 .filter(|(_, f)| f.msg.get_msg_type() == MessageType::MsgRequestPreVoteResponse && !f.msg.reject)
                 .map(|(k, _)| *k)
                 .collect();
-            self.lockstep = Some(LockstepState { leader: l, term: t, majority: majority.to_vec(), rounds: 0, old_grants, stale_grant_delivered: false });
+            self.lockstep = Some(LockstepState { leader: l, term: t, majority: majority.to_vec(), rounds: 0, old_grants, stale_grant_delivered: false, conf: self.nodes[&l].obs.conf.clone() });
             self.bump("lockstep_established");
         }
         if self.lockstep.as_ref().map(|l| l.majority != majority).unwrap_or(true) {
@@ -588,6 +602,11 @@ impl World {
         }
         let (l, t) = (ls.leader, ls.term);
         let stale = ls.stale_grant_delivered;
+        if self.nodes[&l].obs.conf != ls.conf {
+            self.lockstep = None;
+            self.bump("lockstep_cancelled_by_membership_change");
+            return Ok(());
+        }
         // The premise "leader and majority exchange heartbeats on schedule" must have held for a
         // full election timeout before it protects anybody: leases and recent-activity flags still
         // reflect the chaotic prefix. A disturbance during this grace period only cancels the scenario.
